@@ -162,7 +162,7 @@ KfSplit(site, Correct, Defect) ==
 ---------------------------------------------------------------------------
 (* Primitive matchers (src/primitive.rs): one action                       *)
 
-LeafOps == {"just", "any", "oneof", "noneof", "sel", "end", "empty", "cust", "cfgjust", "cfgjustr", "tree", "anyr", "selr"}
+LeafOps == {"just", "any", "oneof", "noneof", "sel", "end", "empty", "cust", "cfgjust", "cfgjustr", "tree", "anyr", "selr", "newline"}
 VIn(lo, hi) == <<"In", lo, hi>>                \* the inner input of a group token: a flat range
 
 (* consume up to k tokens from cursor c: <<new cursor, tokens consumed>> *)
@@ -207,6 +207,17 @@ LeafRes(g, c, ctx) ==
          IF t = "" THEN [ok |-> TRUE, adv |-> 0, nc |-> c, val |-> VU, exp |-> {}, found |-> "", fs |-> 0, fe |-> 0, user |-> FALSE]
          ELSE [ok |-> FALSE, adv |-> 0, nc |-> c, val |-> VU, exp |-> {"eoi"}, found |-> t, fs |-> c, fe |-> Nxt(c), user |-> FALSE]
     [] o = "empty" -> [ok |-> TRUE, adv |-> 0, nc |-> c, val |-> VU, exp |-> {}, found |-> "", fs |-> 0, fe |-> 0, user |-> FALSE]
+    \* text::newline(): custom(|inp| ..): "\r\n" or "\r" by peeking; otherwise it CONSUMES one token and fails,
+    \* without rewinding, when that token is no line terminator
+    [] o = "newline" ->
+         IF t = "R" THEN LET two == TokAt(c + 1) = "N" IN
+                         [ok |-> TRUE, adv |-> IF two THEN 2 ELSE 1, nc |-> IF two THEN c + 2 ELSE c + 1, val |-> VU,
+                          exp |-> {}, found |-> "", fs |-> 0, fe |-> 0, user |-> FALSE]
+         ELSE IF t \in ClsNewline
+              THEN [ok |-> TRUE, adv |-> 1, nc |-> c + 1, val |-> VU, exp |-> {}, found |-> "", fs |-> 0, fe |-> 0, user |-> FALSE]
+         ELSE IF t = ""
+              THEN [ok |-> FALSE, adv |-> 0, nc |-> c, val |-> VU, exp |-> {"x:newline"}, found |-> "", fs |-> c, fe |-> c, user |-> TRUE]
+         ELSE [ok |-> FALSE, adv |-> 1, nc |-> c + 1, val |-> VU, exp |-> {"x:newline"}, found |-> t, fs |-> c, fe |-> c + 1, user |-> TRUE]
     \* select_ref! { Tok::Group(xs) => inner input }: a group token yields its inner input
     [] o = "tree" -> oneTok(t = "(", VIn(c + 1, Nxt(c) - 1), {"else"})
     [] o = "cust" ->
@@ -228,7 +239,8 @@ ALeaf ==
         ELSE IF r.user
              THEN \* Custom::go: add_alt_err(before, err); cursor stays where the closure left it
                   Return(ErrRet, r.nc, sec, insp + r.adv,
-                         AddAltErr(Ety, alt, cur, UserErr(Ety, sp[1], sp[2], "cu")))
+                         AddAltErr(Ety, alt, cur, Norm(Ety, MkErr(sp[1], sp[2], r.found, r.exp,
+                                                                IF Op(f.g) = "cust" THEN "cu" ELSE "", <<>>))))
              ELSE \* span_since(before); rewind(before); add_alt(..) at the rewound cursor
                   Return(ErrRet, r.nc, sec, insp + r.adv,
                          AddAlt(Ety, alt, r.nc, r.exp, r.found, sp[1], sp[2]))
@@ -432,8 +444,12 @@ ATryMapWRet ==
         ELSE Return(ErrRet, cur, sec, insp, AddAltErr(Ety, alt, cur, UserErr(Ety, sp[1], sp[2], "tw")))
 
 (* TryMap::go: take the old alt; child in Emit; ...                        *)
+(* "sleq" is keyword's `ident().try_map(|slice, span| if slice == kw { Ok } else { Err(expected [kw]) })`: *)
+(* the same TryMap::go, the test looking at the matched input instead of the value                      *)
+TMAccepts(f) == IF Op(f.g) = "sleq" THEN SubSeq(Toks, f.cp.cur + 1, cur) = f.g[3] ELSE Pred(f.g[3], ret.val)
+TMErr(f, s1, e1) == IF Op(f.g) = "sleq" THEN Norm(Ety, MkErr(s1, e1, "", {"x:keyword"}, "", <<>>)) ELSE UserErr(Ety, s1, e1, "tm")
 ATryMapStart ==
-  /\ Entering({"trymap"})
+  /\ Entering({"trymap", "sleq"})
   /\ LET f == Top IN
      Call([f EXCEPT !.pc = 1, !.salt = alt], 1, f.g[2], "E", cur, sec, insp, NoAlt)
 
@@ -441,7 +457,7 @@ ATryMapStart ==
 (* never put back: deviation site "trymap_shelter" (C06).  The correct     *)
 (* branch re-inserts the old alt and applies the inner one on top.         *)
 ATryMapInnerFail ==
-  /\ Resuming({"trymap"}, 1) /\ ~ret.ok
+  /\ Resuming({"trymap", "sleq"}, 1) /\ ~ret.ok
   /\ LET f == Top IN
      KfSplit("trymap_shelter",
              ReturnK(ErrRet, cur, sec, insp, IF alt.some THEN AddAltErr(Ety, f.salt, alt.pos, alt.err) ELSE f.salt),
@@ -450,10 +466,10 @@ ATryMapInnerFail ==
 (* ... the child succeeded: accept (old alt back, inner alt re-homed to    *)
 (* `before`) or reject (old alt back, user error at `before`)              *)
 ATryMapRet ==
-  /\ Resuming({"trymap"}, 1) /\ ret.ok
+  /\ Resuming({"trymap", "sleq"}, 1) /\ ret.ok
   /\ LET f == Top
          sp == SpanOf(f.cp.cur, cur)
-     IN IF Pred(f.g[3], ret.val)
+     IN IF TMAccepts(f)
         THEN \* the code re-homes the inner alt to `before` instead of its own position: site "trymap_rehome" (C06)
              IF ~alt.some THEN Return(OkRet(MV(f.mode, ret.val)), cur, sec, insp, f.salt)
              ELSE KfSplit("trymap_rehome",
@@ -465,7 +481,7 @@ ATryMapRet ==
              \* attempted alternative and must survive.  The code instead lets the mapper error
              \* REPLACE the inner alt, however far ahead that was: site "trymap_override" (C06).
              LET merged == IF alt.some THEN AddAltErr(Ety, f.salt, alt.pos, alt.err) ELSE f.salt
-                 uerr == UserErr(Ety, sp[1], sp[2], "tm")
+                 uerr == TMErr(f, sp[1], sp[2])
              IN \/ /\ KfMay("trymap_override", "off") /\ KfMay("o:tm_end", "off")
                    /\ ReturnK(ErrRet, cur, sec, insp, AddAltErr(Ety, merged, f.cp.cur, uerr))
                    /\ kf' = KfSet("o:tm_end", "off") @@ KfSet("trymap_override", "off")
@@ -891,8 +907,26 @@ AVarStart ==
                  cur, sec, insp, alt)
         /\ UNCHANGED <<cid, memo, kf, obs, result>>
 
-APassRet ==      \* rec, ref, let, var, with_ctx, map_ctx: the child's result is the result
-  /\ Resuming({"rec", "ref", "let", "var", "withctx", "mapctx"}, 1)
+(* text parsers (C14): the machine runs the grammar src/text.rs builds them from (g[4]) *)
+ATextStart ==
+  /\ Entering({"text"})
+  /\ LET f == Top IN Call([f EXCEPT !.pc = 1], 1, f.g[4], f.mode, cur, sec, insp, alt)
+
+(* Padded::go: skip_while(is_whitespace); A; skip_while(is_whitespace) -- no checkpoints, no failure of its own *)
+RECURSIVE SkipWs(_)
+SkipWs(c) == IF TokAt(c) \in ClsWs THEN SkipWs(c + 1) ELSE c
+ATPaddedStart ==
+  /\ Entering({"tpadded"})
+  /\ LET f == Top
+         c2 == SkipWs(cur)
+     IN Call([f EXCEPT !.pc = 1], 1, f.g[2], f.mode, c2, sec, insp + (c2 - cur), alt)
+ATPaddedRet ==
+  /\ Resuming({"tpadded"}, 1)
+  /\ LET c2 == SkipWs(cur) IN
+     IF ret.ok THEN Return(OkRet(ret.val), c2, sec, insp + (c2 - cur), alt) ELSE Keep(ErrRet)
+
+APassRet ==      \* rec, ref, let, var, with_ctx, map_ctx, text: the child's result is the result
+  /\ Resuming({"rec", "ref", "let", "var", "withctx", "mapctx", "text"}, 1)
   /\ Keep([ret EXCEPT !.fr = NoFrame])
 
 ---------------------------------------------------------------------------
@@ -1154,6 +1188,7 @@ CoreNext ==
   \/ ALabelStart \/ ALabelRet \/ AMapErrRet
   \/ AMemoStart \/ AMemoRet \/ ARecStart \/ ARefStart \/ ALetStart \/ AVarStart \/ APassRet
   \/ ANestedStart \/ ANestedBRet \/ ANestedARet
+  \/ ATextStart \/ ATPaddedStart \/ ATPaddedRet
   \/ AWithCtxStart \/ AThenCtxStart \/ AThenCtxARet \/ AThenCtxBRet \/ AWithStateStart \/ AWithStateRet
   \/ APrattStart \/ APrattPrefixScan \/ APrattPrefixRet \/ APrattAtomRet \/ APrattPostfixScan \/ APrattInfixScan \/ APrattInfixRet
   \/ Finish \/ ANextParse
